@@ -252,6 +252,12 @@ func (ga *GroupAggregator) Add(data any) error {
 				continue
 			}
 
+			// A NULL produced by the expression is skipped exactly like a NULL column value
+			// (FIRST_VALUE / LAST_VALUE still record it).
+			if result == nil && !ga.shouldAllowNullValues(aggField.AggregateType) {
+				continue
+			}
+
 			if groupAgg, exists := ga.groups[key][outputAlias]; exists {
 				groupAgg.Add(result)
 			}
